@@ -2379,3 +2379,133 @@ func ruleDecodeIntoPointerPointer(c *core.Ctx) {
 		c.Undecided(rule, "decode sites", 0, "no Decode(&pointer) site found")
 	}
 }
+
+// P11: the null type goes only where null is a type. UnmarshalTypeYAML answers a YAML null with (nil, nil) — the null
+// case of a union. Every caller therefore either stores the result as the Type of a TypeCase (where nil means null),
+// tests the result (or the node's tag) for null itself, or stores it in a position the tree walkers treat as optional
+// (table). A nil Type anywhere else is handed to the visitors as a node and dereferenced.
+var optionalTypePositions = map[string]string{
+	"EnumDefinition.BaseType": "VisitChildren and the validators test BaseType for nil (no base type = int32)",
+}
+
+func ruleNullTypeOnlyInUnions(c *core.Ctx) {
+	const rule = "P11"
+	c.Rule(rule, "pkg/dsl/yaml.go: each result of UnmarshalTypeYAML is nil-tested, or guarded by a null-tag test of its node, or becomes TypeCase.Type, or goes to an audited optional position", 8)
+	p := c.Pkg("pkg/dsl")
+	target, _, _ := c.Func("pkg/dsl", "UnmarshalTypeYAML")
+	if p == nil || target == nil {
+		c.Undecided(rule, "anchor/pkg/dsl.UnmarshalTypeYAML", 0, "anchor not found")
+		return
+	}
+	info := p.TypesInfo
+	for _, d := range c.AllDecls() {
+		if c.DeclPkg(d) != p || d.Body == nil || c.IsTestFile(d.Pos()) {
+			continue
+		}
+		n := 0
+		ast.Inspect(d.Body, func(x ast.Node) bool {
+			as, ok := x.(*ast.AssignStmt)
+			if !ok || len(as.Rhs) != 1 || len(as.Lhs) != 2 {
+				return true
+			}
+			ce, ok := ast.Unparen(as.Rhs[0]).(*ast.CallExpr)
+			if !ok {
+				return true
+			}
+			if f := core.Callee(info, ce); f == nil || f.Origin() != target {
+				return true
+			}
+			obj := identObj(info, as.Lhs[0])
+			if obj == nil || len(ce.Args) != 1 {
+				return true
+			}
+			n++
+			key := c.FuncName(d) + "/UnmarshalTypeYAML#" + itoa(n)
+			why := ""
+			// (b) the result is compared with nil
+			ast.Inspect(d.Body, func(y ast.Node) bool {
+				if be, ok := y.(*ast.BinaryExpr); ok && (be.Op == token.EQL || be.Op == token.NEQ) {
+					if (identObj(info, be.X) == obj && info.Types[be.Y].IsNil()) || (identObj(info, be.Y) == obj && info.Types[be.X].IsNil()) {
+						why = "result is nil-tested"
+					}
+				}
+				return true
+			})
+			// (b') the result is stored into a field and that field is nil-tested in the function
+			if why == "" {
+				stored := map[string]bool{}
+				ast.Inspect(d.Body, func(y ast.Node) bool {
+					if s2, ok := y.(*ast.AssignStmt); ok {
+						for i, r := range s2.Rhs {
+							if identObj(info, r) == obj && i < len(s2.Lhs) {
+								stored[types.ExprString(s2.Lhs[i])] = true
+							}
+						}
+					}
+					return true
+				})
+				ast.Inspect(d.Body, func(y ast.Node) bool {
+					if be, ok := y.(*ast.BinaryExpr); ok && (be.Op == token.EQL || be.Op == token.NEQ) {
+						if (stored[types.ExprString(be.X)] && info.Types[be.Y].IsNil()) || (stored[types.ExprString(be.Y)] && info.Types[be.X].IsNil()) {
+							why = "stored into a field that is nil-tested before the function returns it"
+						}
+					}
+					return true
+				})
+			}
+			// (c) the argument node's tag is tested against "!!null" before the call
+			argObj := identObj(info, ce.Args[0])
+			if why == "" && argObj != nil {
+				ast.Inspect(d.Body, func(y ast.Node) bool {
+					if be, ok := y.(*ast.BinaryExpr); ok && be.Pos() < ce.Pos() && (be.Op == token.EQL || be.Op == token.NEQ) {
+						t := types.ExprString(be)
+						if strings.Contains(t, `"!!null"`) && strings.Contains(t, argObj.Name()+".Tag") {
+							why = "the node's tag is tested for null before the call"
+						}
+					}
+					return true
+				})
+			}
+			// (a)/(d) where the result goes
+			if why == "" {
+				ast.Inspect(d.Body, func(y ast.Node) bool {
+					switch s := y.(type) {
+					case *ast.KeyValueExpr:
+						if identObj(info, s.Value) == obj {
+							if id, ok := s.Key.(*ast.Ident); ok && id.Name == "Type" {
+								// the enclosing literal
+								why2 := ""
+								ast.Inspect(d.Body, func(z ast.Node) bool {
+									if cl, ok := z.(*ast.CompositeLit); ok && cl.Pos() <= s.Pos() && s.End() <= cl.End() {
+										if nt := core.NamedOf(info.TypeOf(cl)); nt != nil && nt.Obj().Name() == "TypeCase" {
+											why2 = "becomes TypeCase.Type (nil = the null case)"
+										}
+									}
+									return true
+								})
+								if why2 != "" {
+									why = why2
+								}
+							}
+						}
+					case *ast.AssignStmt:
+						for i, r := range s.Rhs {
+							if identObj(info, r) == obj && i < len(s.Lhs) {
+								if se, ok := ast.Unparen(s.Lhs[i]).(*ast.SelectorExpr); ok {
+									if k, ok := fieldOf(info, se); ok {
+										if reason, ok := optionalTypePositions[k.typ+"."+k.field]; ok {
+											why = "optional position " + k.typ + "." + k.field + ": " + reason
+										}
+									}
+								}
+							}
+						}
+					}
+					return true
+				})
+			}
+			c.Check(why != "", rule, key, ce.Pos(), why, "a YAML null here makes UnmarshalTypeYAML return a nil Type that is stored without a test ("+types.ExprString(ce.Args[0])+"): the tree walkers hand it to their callbacks as a node and the first GetNodeMeta() on it panics")
+			return true
+		})
+	}
+}
